@@ -115,6 +115,23 @@ func c31Exec(t *testing.T, sc *gen.Scenario, trace bool) *harness.Outcome {
 				}
 			}
 			last := map[[2]int]string{}
+			// a response that was handed out stays what it was, whatever is written afterwards (a caller
+			// may still be marshalling it)
+			type heldResp struct {
+				resp *openfgav1.ReadAssertionsResponse
+				was  string
+				op   int
+			}
+			var held []heldResp
+			stillIntact := func(at int) bool {
+				for _, h := range held {
+					if now := renderAssertions(h.resp.GetAssertions()); now != h.was {
+						e.violate("response_changed_after_return", "backend="+b.name, "the ReadAssertions response returned at op %d on %s reads differently after op %d:\n%s\nwhen it was returned:\n%s", h.op, b.name, at, now, h.was)
+						return false
+					}
+				}
+				return true
+			}
 			for i, op := range sc.Ops {
 				key := [2]int{op.Store, op.Model}
 				sid, mid := stores[op.Store], models[op.Store][op.Model]
@@ -139,6 +156,9 @@ func c31Exec(t *testing.T, sc *gen.Scenario, trace bool) *harness.Outcome {
 						break
 					}
 					last[key] = renderAssertions(as)
+					if !stillIntact(i) {
+						return
+					}
 				case "assert_r":
 					resp, err := b.s.ReadAssertions(ctx, &openfgav1.ReadAssertionsRequest{StoreId: sid, AuthorizationModelId: mid})
 					out.Evals++
@@ -148,6 +168,7 @@ func c31Exec(t *testing.T, sc *gen.Scenario, trace bool) *harness.Outcome {
 					}
 					got := renderAssertions(resp.GetAssertions())
 					e.run.Log("assert_r", fmt.Sprintf("%s op%d s%d m%d n=%d", b.name, i, op.Store, op.Model, len(resp.GetAssertions())))
+					held = append(held, heldResp{resp, got, i})
 					if got != last[key] {
 						tag := ""
 						for k, v := range last {
